@@ -328,9 +328,18 @@ def streams(draw, max_lines: int = 8, lenient: bool = True) -> bytes:
     n = draw(st.integers(1, max_lines))
     out = b""
     for _ in range(n):
-        r = draw(st.integers(0, 9))
+        r = draw(st.integers(0, 10))
         if r <= 5:
             line = draw(message_line())
+        elif r == 10:
+            # a line that BEGINS with a whole document but is not one: two documents glued together (a child that lost a
+            # newline), or a document followed by log output - junk as a whole, wherever the pipe happens to cut it
+            line = draw(message_line()) + draw(st.sampled_from([b"", b" ", b",", b" trailing log output", b"}", b"]"])) + draw(st.one_of(st.just(b""), message_line()))
+            try:
+                json.loads(line.decode("utf-8"))
+                line = b"}{"
+            except ValueError:
+                pass
         elif r == 6:
             # a message cut short at an arbitrary byte (a child that died or was interrupted mid-write)
             whole = draw(message_line())
@@ -351,7 +360,9 @@ def streams(draw, max_lines: int = 8, lenient: bool = True) -> bytes:
 def cases(draw, max_lines: int = 8):
     s = draw(streams(max_lines))
     spans = _utf8_char_spans(s)
-    interesting = [c for a, b in spans for c in range(a + 1, b)] + [i + 1 for i in range(len(s) - 1) if s[i : i + 2] == b"\r\n"] + [i + 1 for i in range(len(s)) if s[i : i + 1] == b"\n"]
+    interesting = ([c for a, b in spans for c in range(a + 1, b)] + [i + 1 for i in range(len(s) - 1) if s[i : i + 2] == b"\r\n"] + [i + 1 for i in range(len(s)) if s[i : i + 1] == b"\n"]
+                   + [i + 1 for i in range(len(s) - 1) if s[i : i + 1] in (b"}", b"]")])  # just after a closing bracket: the text so far may be a whole document
+    interesting = [c for c in interesting if 1 <= c <= len(s) - 1] if len(s) > 1 else []
     pos = st.integers(1, max(1, len(s) - 1))
     if interesting:
         pos = st.one_of(st.sampled_from(interesting), pos)
@@ -368,6 +379,7 @@ SHORT_STREAMS: List[bytes] = [
     'junk é\n{"jsonrpc":"2.0","id":"日","result":{"a":"\\n"}}\r\n'.encode(),
     b'{"jsonrpc":"2.0","method":"a"}\n\xff\xfe\r\n{"jsonrpc":"2.0","method":"b"}\n',
     '{"jsonrpc":"2.0","id":7,"error":{"code":-1,"message":"ñ€"}}\n{}\n'.encode(),
+    b'{"jsonrpc":"2.0","method":"a"} log: started\n{"jsonrpc":"2.0","id":1,"result":[{}]}{"jsonrpc":"2.0","method":"b"}\r\n{"jsonrpc":"2.0","method":"c"}\n',
 ]
 
 
